@@ -24,6 +24,7 @@ type procSpec struct {
 	calls          map[string]string // Go call text (the right-hand side of `…, err := call`) -> Lean term of type Except Err _
 	stmts          map[string]string // Go statement text -> Lean statement (verbatim)
 	errs           map[string]string // Go error expression text -> Lean Err constructor
+	locals         []string          // Go variables bound by a verbatim statement of `stmts`
 	result         string            // value of `return nil` (error-only functions) and of falling off the end
 	pure           bool              // no error result: `return x` is `return x`
 }
@@ -323,19 +324,24 @@ func (t *procTr) block(list []ast.Stmt, ind string) ([]string, error) {
 		case *ast.RangeStmt:
 			// search loop: `for _, v := range L { if C(v) { return R } }`  =  `if L.any (fun v => C v) then return R`
 			v, okv := x.Value.(*ast.Ident)
-			if x.Tok != token.DEFINE || !okv || len(x.Body.List) != 1 {
+			if x.Tok != token.DEFINE || !okv || len(x.Body.List) == 0 {
 				return nil, fmt.Errorf("untranslatable loop %q", norm(text(st)))
 			}
 			if k, ok := x.Key.(*ast.Ident); x.Key != nil && (!ok || k.Name != "_") {
 				return nil, fmt.Errorf("untranslatable loop %q", norm(text(st)))
 			}
 			is, ok := x.Body.List[0].(*ast.IfStmt)
-			if !ok || is.Init != nil || is.Else != nil || len(is.Body.List) != 1 {
-				return nil, fmt.Errorf("untranslatable loop %q", norm(text(st)))
+			var rs *ast.ReturnStmt
+			if ok && is.Init == nil && is.Else == nil && len(is.Body.List) == 1 {
+				rs, _ = is.Body.List[0].(*ast.ReturnStmt)
 			}
-			rs, ok := is.Body.List[0].(*ast.ReturnStmt)
-			if !ok {
-				return nil, fmt.Errorf("untranslatable loop %q", norm(text(st)))
+			if rs == nil {
+				ls, err := t.foldLoop(x, v, ind)
+				if err != nil {
+					return nil, err
+				}
+				out = append(out, ls...)
+				continue
 			}
 			lst, err := t.expr(x.X)
 			if err != nil {
@@ -362,6 +368,93 @@ func (t *procTr) block(list []ast.Stmt, ind string) ([]string, error) {
 			return nil, fmt.Errorf("untranslatable statement %q", norm(text(st)))
 		}
 	}
+	return out, nil
+}
+
+// foldLoop: `for _, v := range L { BODY }` where BODY neither breaks, continues nor returns a value (it may return an error)
+// is the monadic left fold of BODY over L; the state of the fold is the variables of the enclosing scope BODY assigns to.
+func (t *procTr) foldLoop(x *ast.RangeStmt, v *ast.Ident, ind string) ([]string, error) {
+	var bad error
+	var carried []string
+	seen := map[string]bool{}
+	root := func(e ast.Expr) string {
+		for {
+			switch y := e.(type) {
+			case *ast.SelectorExpr:
+				e = y.X
+			case *ast.Ident:
+				return y.Name
+			default:
+				return ""
+			}
+		}
+	}
+	note := func(e ast.Expr) {
+		if n := root(e); n != "" && n != "err" && t.decl[n] && !seen[n] {
+			seen[n] = true
+			carried = append(carried, n)
+		}
+	}
+	ast.Inspect(x.Body, func(n ast.Node) bool {
+		switch y := n.(type) {
+		case *ast.BranchStmt:
+			bad = fmt.Errorf("loop with %s", y.Tok)
+		case *ast.ReturnStmt:
+			last := ""
+			if len(y.Results) > 0 {
+				last = norm(text(y.Results[len(y.Results)-1]))
+			}
+			if _, ok := t.sp.errs[last]; !ok && last != "err" {
+				bad = fmt.Errorf("loop body returns a value: %q", norm(text(y)))
+			}
+		case *ast.AssignStmt:
+			if y.Tok == token.ASSIGN {
+				for _, l := range y.Lhs {
+					note(l)
+				}
+			}
+		case *ast.IncDecStmt:
+			note(y.X)
+		case *ast.ExprStmt:
+			if c, ok := y.X.(*ast.CallExpr); ok {
+				_, verbatim := t.sp.stmts[norm(text(y))]
+				if sel, ok := c.Fun.(*ast.SelectorExpr); ok && (updMethods[sel.Sel.Name] != "" || verbatim) {
+					note(sel.X)
+				}
+			}
+		}
+		return true
+	})
+	if bad != nil {
+		return nil, bad
+	}
+	if len(carried) == 0 {
+		return nil, fmt.Errorf("loop without effect on the enclosing scope %q", norm(text(x.X)))
+	}
+	lst, err := t.expr(x.X)
+	if err != nil {
+		return nil, err
+	}
+	var names []string
+	for _, c := range carried {
+		names = append(names, leanIdent(c))
+	}
+	pat := names[0]
+	if len(names) > 1 {
+		pat = "(" + strings.Join(names, ", ") + ")"
+	}
+	t.decl[v.Name] = true
+	body, err := t.body(x.Body.List, ind+"    ")
+	delete(t.decl, v.Name)
+	if err != nil {
+		return nil, err
+	}
+	out := []string{ind + pat + " ← " + lst + ".foldlM (fun " + pat + " " + leanIdent(v.Name) + " => do"}
+	for _, n := range names {
+		out = append(out, ind+"    let mut "+n+" := "+n)
+	}
+	out = append(out, body...)
+	out = append(out, ind+"    return "+pat+") "+pat)
 	return out, nil
 }
 
@@ -535,6 +628,21 @@ func genProcs(repo, out string) {
 			atoms: map[string]string{"src.IsPeerIPType()": "srcIsIP", "dst.IsPeerIPType()": "dstIsIP", "src.String()": "srcStr", "dst.String()": "dstStr",
 				"ca.exposureAnalysis": "exposure", "ca.includePairWithRepresentativePeer(pe, src, dst)": "includeRep", "ca.focusWorkload": "focus",
 				"ca.isPeerFocusWorkload(src)": "srcFocus", "pe.IsRepresentativePeer(src)": "srcRep", "ca.isPeerFocusWorkload(dst)": "dstFocus", "pe.IsRepresentativePeer(dst)": "dstRep"}},
+		{file: "pkg/netpol/eval/check.go", fn: "PolicyEngine.getAllAllowedXgressConnectionsFromANPs", lean: "getAllAllowedXgressConnectionsFromANPs",
+			sig:   "(anps : List ANP) (src dst : KPeer) (isIngress : Bool) : Except Err (PolicyConns × Bool)",
+			atoms: with(mk, map[string]string{"pe.sortedAdminNetpols": "anps"}),
+			calls: map[string]string{"anp.Selects(src, false)": "(Except.ok (anp.selects src false) : Except Err Bool)", "anp.Selects(dst, true)": "(Except.ok (anp.selects dst true) : Except Err Bool)",
+				"anp.GetEgressPolicyConns(dst)": "(adminPolicyConns anp.egress dst dst false)", "anp.GetIngressPolicyConns(src, dst)": "(adminPolicyConns anp.ingress src dst false)"},
+			stmts: map[string]string{"policiesConns.CollectANPConns(singleANPConns)": "policiesConns := (← collectANPConns policiesConns singleANPConns).1"}},
+		{file: "pkg/netpol/eval/check.go", fn: "PolicyEngine.getAllAllowedXgressConnsFromNetpols", lean: "getAllAllowedXgressConnsFromNetpols",
+			sig:   "(polsIngress polsEgress : Except Err (List NetPol)) (src dst : KPeer) (isIngress : Bool) : Except Err (PolicyConns × Bool)",
+			atoms: with(mk, map[string]string{"nil": "PolicyConns.empty", "len(netpols)": "netpols.length"}), locals: []string{"netpols"},
+			calls: map[string]string{"pe.determineAllowedConnsPerDirection(policy, src, dst, isIngress)": "(if isIngress then policy.ingressAllowedConns src dst else policy.egressAllowedConns dst)"},
+			stmts: map[string]string{
+				"var netpols []*k8s.NetworkPolicy": "pure ()",
+				"if isIngress { netpols, err = pe.getPoliciesSelectingPod(dst, netv1.PolicyTypeIngress) } else { netpols, err = pe.getPoliciesSelectingPod(src, netv1.PolicyTypeEgress) }": "let netpols ← (if isIngress then polsIngress else polsEgress)",
+				"if err != nil { return nil, false, err }":                                                    "pure ()",
+				"if pe.exposureAnalysisFlag { updatePeerXgressClusterWideExposure(policy, src, dst, isIngress) }": "pure ()"}},
 		{file: "pkg/netpol/eval/check_eval.go", fn: "isAllowedByANPCapturedRes", lean: "isAllowedByANPCapturedRes",
 			sig:   "(anpRes : RuleRes) : Except Err (Bool × Bool)",
 			atoms: map[string]string{"k8s.Pass": "RuleRes.pass", "k8s.Allow": "RuleRes.allow", "k8s.Deny": "RuleRes.deny"}, errs: badAction},
@@ -576,6 +684,9 @@ func genProcs(repo, out string) {
 		t := &procTr{sp: sp, decl: map[string]bool{}}
 		// parameters of the Go function and the receiver are in scope when the Lean signature binds them
 		for _, m := range sp.muts {
+			t.decl[m] = true
+		}
+		for _, m := range sp.locals {
 			t.decl[m] = true
 		}
 		if fd.Type.Params != nil {
